@@ -7,7 +7,7 @@ MULTS = [1, 1, 1, 2, 2, 3, 5, 254, 255, 256, 257, 600]
 
 def gen_ua(rng, dist):
     def hit(k): dist[k] = dist.get(k, 0) + 1
-    cls = rng.choice(['random', 'random', 'reorder', 'subset', 'superset', 'bigmult', 'bigmult', 'shortcut', 'shortcut_edge', 'empty_p', 'empty_c', 'delta1'])
+    cls = rng.choice(['random', 'random', 'reorder', 'subset', 'superset', 'bigmult', 'bigmult', 'shortcut', 'shortcut_edge', 'empty_p', 'empty_c', 'delta1', 'large'])
     hit('ua_' + cls)
     nk = rng.choice([1, 2, 3, 5, 8, 12])
     def ms(keys, big=False):
@@ -31,6 +31,19 @@ def gen_ua(rng, dist):
         p = ms(rng.sample(range(60), rng.randint(5, 14))); c = ms(rng.sample(range(60), rng.randint(0, 3)))
     elif cls == 'shortcut_edge':     # distinct(cur) around distinct(prev)/2
         n = rng.randint(2, 12); p = ms(rng.sample(range(60), n)); c = ms(rng.sample(range(60), max(0, n // 2 + rng.randint(-1, 1))))
+    elif cls == 'large':    # many distinct items; c items change count, c appear, c disappear for c around powers of two (thresholds on counts of entries)
+        n = rng.choice([20, 33, 40, 70, 130, 300]); ks = rng.sample(range(1000), n)
+        p = ms(ks)
+        cnt = Counter(p); c_n = max(1, min(rng.choice([1, 8, 9, 16, 17, 32, 33, 64, 100]), n // 2))
+        kinds = rng.choice([('chg',), ('chg', 'ins'), ('chg', 'ins', 'rem'), ('ins', 'rem'), ('rem',), ('ins',), ('chg', 'rem')])
+        rng.shuffle(ks)
+        if 'rem' in kinds:
+            for k in ks[:c_n]: del cnt[k]
+        if 'chg' in kinds:
+            for k in ks[c_n:2 * c_n]: cnt[k] = max(1, cnt[k] + rng.choice([-1, 1, 2]))  if cnt[k] > 1 else cnt[k] + 1
+        if 'ins' in kinds:
+            for k in rng.sample(range(1000, 2000), c_n): cnt[k] = rng.choice([1, 1, 2])
+        c = [k for k, m in cnt.items() for _ in range(m)]; rng.shuffle(c)
     elif cls == 'empty_p':
         p = []; c = ms(keys)
     elif cls == 'empty_c':
@@ -47,7 +60,7 @@ def ua_line(i, p, c, b):
 def gen_mf(rng, dist):
     def hit(k): dist[k] = dist.get(k, 0) + 1
     ko = rng.random() < 0.5
-    cls = rng.choice(['random', 'random', 'equal', 'value_change', 'value_change', 'add', 'remove', 'shortcut', 'shortcut_edge', 'empty', 'dupkeys'])
+    cls = rng.choice(['random', 'random', 'equal', 'value_change', 'value_change', 'add', 'remove', 'shortcut', 'shortcut_edge', 'empty', 'dupkeys', 'large', 'shrink_shared'])
     hit('mf_' + cls); hit('mf_key_only' if ko else 'mf_key_value')
     def mp(keys): return [(k, rng.randrange(5)) for k in keys]
     keys = rng.sample(range(30), rng.randint(1, 8))
@@ -65,6 +78,24 @@ def gen_mf(rng, dist):
         p = mp(rng.sample(range(60), rng.randint(5, 14))); c = mp(rng.sample(range(60), rng.randint(0, 3)))
     elif cls == 'shortcut_edge':
         n = rng.randint(2, 12); p = mp(rng.sample(range(60), n)); c = mp(rng.sample(range(60), max(0, n // 2 + rng.randint(-1, 1))))
+    elif cls == 'large':    # many keys; c values change, c keys appear, c disappear (thresholds on counts of entries)
+        n = rng.choice([20, 33, 40, 70, 130, 300]); ks = rng.sample(range(1000), n)
+        p = mp(ks); m = dict(p); c_n = max(1, min(rng.choice([1, 8, 9, 16, 17, 32, 33, 64, 100]), n // 2))
+        kinds = rng.choice([('chg',), ('chg', 'ins'), ('chg', 'ins', 'rem'), ('ins', 'rem'), ('rem',), ('ins',), ('chg', 'rem'), ('swapvals',)])
+        rng.shuffle(ks)
+        if 'rem' in kinds:
+            for k in ks[:c_n]: del m[k]
+        if 'chg' in kinds:
+            for k in ks[c_n:2 * c_n]: m[k] = m[k] + 100
+        if 'ins' in kinds:
+            for k in rng.sample(range(1000, 2000), c_n): m[k] = rng.randrange(5)
+        if 'swapvals' in kinds and n >= 2:        # two keys exchange their values; a value another key had comes back
+            a_, b_ = ks[0], ks[1]; m[a_], m[b_] = m[b_] + 7, m[a_] + 7; m[a_], m[b_] = m[b_], m[a_]
+        c = list(m.items()); rng.shuffle(c)
+    elif cls == 'shrink_shared':   # previous more than twice as large as current, sharing keys of which some changed value
+        n = rng.randint(6, 40); ks = rng.sample(range(200), n); p = mp(ks)
+        keep = ks[:max(1, rng.randint(1, max(1, n // 2 - 1)))]
+        c = [(k, v + 100) if rng.random() < 0.5 else (k, v) for k, v in p if k in keep]; rng.shuffle(c)
     elif cls == 'empty':
         p, c = ([], mp(keys)) if rng.random() < 0.5 else (mp(keys), [])
     else:   # duplicate keys (not a map: correspondence only, no oracle)
